@@ -18,7 +18,11 @@ for _i in range(256):
 assert all(codec.crc16(bytes([i])) == (_TABLE[0xFF ^ i] ^ 0x00FF) for i in range(256))
 
 
-def _pdu_len_ok(pdu, direction):
+def _pdu_len_ok(pdu, direction, strict=True):
+    # only TCP demands that the frame extent (MBAP length) agrees with the length the
+    # PDU's own fields imply; on the serial framings the integrity check is the checksum
+    if not strict:
+        return True
     fn = codec.request_len if direction == 'req' else codec.response_len
     want = fn(pdu)
     if want is None:
@@ -52,7 +56,7 @@ def justified(framing, data, direction='req', max_frame=None):
                 if e - s >= 2 and e + 2 <= n:
                     if data[e] == (crc & 0xFF) and data[e + 1] == (crc >> 8):
                         pdu = data[s + 1:e]
-                        if _pdu_len_ok(pdu, direction):
+                        if _pdu_len_ok(pdu, direction, strict=False):
                             out.append((s, e + 2, data[s], None, pdu))
                 crc = (crc >> 8) ^ _TABLE[(crc ^ data[e]) & 0xFF]
         return out
@@ -69,7 +73,7 @@ def justified(framing, data, direction='req', max_frame=None):
                     unit, _, _, pdu = codec.parse_frame('ascii', data[s:e + 2])
                 except codec.Malformed:
                     continue
-                if pdu and _pdu_len_ok(pdu, direction):
+                if pdu and _pdu_len_ok(pdu, direction, strict=False):
                     out.append((s, e + 2, unit, None, pdu))
         return out
     if framing == 'binary':
@@ -85,7 +89,7 @@ def justified(framing, data, direction='req', max_frame=None):
                     unit, _, _, pdu = codec.parse_frame('binary', data[s:e + 1])
                 except codec.Malformed:
                     continue
-                if pdu and _pdu_len_ok(pdu, direction):
+                if pdu and _pdu_len_ok(pdu, direction, strict=False):
                     out.append((s, e + 1, unit, None, pdu))
         return out
     if framing == 'tls':
